@@ -18,6 +18,7 @@
 #include <set>
 #include <sstream>
 #include <string>
+#include <type_traits>
 #include <vector>
 
 extern "C" {
@@ -502,7 +503,10 @@ struct Op {
 
 // ops: 0 default, 1 from-list{1,2,3}, 2 copy-construct a <- b, 3 copy-assign a = b, 4 move-assign a = move(b),
 //      5 push_back, 6 mutable index write, 7 clear, 8 destroy, 9 hand to Rust and back (solve result; ids only),
-//      10 self copy-assign, 11 read through Slice, 12 write through a mutable Slice
+//      10 self copy-assign, 11 read through Slice, 12 write through a mutable Slice,
+//      13 push_back of an element of the same vector (the argument aliases the storage that push_back
+//         may have to replace; std::vector guarantees this works), 14 the same through the rvalue
+//         overload (trivially copyable element types only, where a moved-from element keeps its value)
 template <typename T>
 static bool run_program(const std::vector<Op> &prog, std::string &why) {
     const int H = 2;
@@ -607,6 +611,23 @@ static bool run_program(const std::vector<Op> &prog, std::string &why) {
                     ++fresh;
                 }
                 break;
+            case 13:
+                if (!h[a] || h[a]->empty()) continue;
+                {
+                    const resolvo::Vector<T> &cv = *h[a];
+                    const T &own = cv.at(cv.size() - 1);
+                    h[a]->push_back(own);
+                    m[a]->push_back(m[a]->back());
+                }
+                break;
+            case 14:
+                if (!h[a] || h[a]->empty()) continue;
+                if constexpr (std::is_trivially_copyable_v<T>) {
+                    resolvo::Vector<T> &v = *h[a];
+                    v.push_back(std::move(v[v.size() - 1]));
+                    m[a]->push_back(m[a]->back());
+                }
+                break;
             default:
                 break;
         }
@@ -638,6 +659,8 @@ static void run_containers(const char *tname, int depth) {
         alphabet.push_back({10, a, 0});
         alphabet.push_back({11, a, 0});
         alphabet.push_back({12, a, 0});
+        alphabet.push_back({13, a, 0});
+        if (std::is_trivially_copyable_v<T>) alphabet.push_back({14, a, 0});
     }
     const size_t A = alphabet.size();
     uint64_t total = 1;
